@@ -66,6 +66,10 @@ type Result struct {
 	LogHash    string         `json:"log_hash"`
 	Inconcl    string         `json:"inconclusive,omitempty"`
 	Events     []Event        `json:"events,omitempty"`
+	// Cover lists hashes of coverage items reached by this run (what an item is,
+	// the simulator says in its rule; SIM-CONC: (from-site, to-site) pairs of
+	// context switches inside library code). The driver counts distinct items.
+	Cover []uint64 `json:"cover,omitempty"`
 	// Respec, when set on a violating run, is an equivalent spec in more
 	// explicit form (SIM-CONC: the seeded scheduling policy replaced by the
 	// recorded switch list) that the driver prefers for minimisation.
